@@ -12,6 +12,8 @@ C13 — Malformed arguments yield the matching Err, never a panic, and change no
 -/
 import RubatoProofs.Lemmas.Shape
 import RubatoModel.Fft
+import RubatoProofs.Lemmas.ValidateTie
+import RubatoProofs.Lemmas.FormulaTie
 
 set_option linter.unusedSectionVars false
 set_option linter.unusedVariables false
@@ -229,5 +231,35 @@ theorem fft_ctor_errors {σ υ : Type} (da : DivArith) (u : FftUnit σ υ) (z : 
 example : validateBuffers [5, 0] [9, 9] [true, false] 2 5 9 = .ok () := by rfl
 example : validateBuffers [5, 4] [9, 9] [true, true] 2 5 9 = .error (.insufIn 1 5 4) := by rfl
 example : validateBuffers [5] [9, 9] [true, true, true] 2 5 9 = .error (.wrongIn 2 1) := by rfl
+
+end Rubato.C13
+
+namespace Rubato.C13
+open Rubato Rubato.Gen
+
+/-- tie G10: the `validateBuffers` all theorems of this file are about IS the decision list the translator regenerates from
+`lib.rs::validate_buffers` in this run (order of the checks, which error each raises, with which payload) -/
+theorem validate_buffers_is_the_source_text (inLens outLens : List Nat) (mask : List Bool) (channels minIn minOut : Nat) :
+    validateBuffers inLens outLens mask channels minIn minOut =
+      ValidateTie.runSteps Validation.validateSteps inLens outLens mask channels minIn minOut :=
+  ValidateTie.validateBuffers_is_generated inLens outLens mask channels minIn minOut
+
+/-- tie G10: every one of the seven `process_into_buffer` bodies starts with the mask prologue (length check BEFORE the copy),
+hands `validate_buffers` the lengths the model uses, and writes no field of `self` other than the channel mask before the
+validation — so the call that is rejected has changed nothing but the stored mask -/
+theorem nothing_is_written_before_validation :
+    Validation.validateCalls.map (·.2.2.2) = [0, 0, 0, 0, 0, 0, 0] ∧
+    Validation.validateCalls.map (·.2.1) = ["self.chunk_size", "self.needed_input_size", "self.chunk_size",
+      "self.needed_input_size", "self.chunk_size_in", "self.frames_needed", "self.chunk_size_in"] ∧
+    Validation.validateCalls.map (·.2.2.1) = ["needed_len", "self.chunk_size", "needed_len", "self.chunk_size",
+      "needed_len", "self.chunk_size_out", "self.chunk_size_out"] := by
+  rw [ValidateTie.validate_calls]; exact ⟨rfl, rfl, rfl⟩
+
+/-- tie G7: the `needed_len` the fixed-input types validate the output against is `output_frames_next()` -/
+theorem needed_len_is_output_frames_next {ρ : Type} [RNum ρ] (chunk : Nat) (ratio target : ρ) :
+    Formulas.fastIn_needed_len chunk ratio target = Formulas.fastIn_output_frames_next chunk ratio target ∧
+    Formulas.sincIn_calc_needed_len chunk ratio target = outNextIn chunk ratio target ∧
+    Formulas.fastIn_needed_len chunk ratio target = outNextIn chunk ratio target :=
+  ⟨rfl, rfl, rfl⟩
 
 end Rubato.C13
